@@ -21,7 +21,7 @@ use crate::{
 
 type Enc = EncryptedHybridReport<BA8, BA3>;
 
-fn impression(mk: u64, bk: u8, key_id: u8) -> HybridReport<BA8, BA3> {
+pub fn impression(mk: u64, bk: u8, key_id: u8) -> HybridReport<BA8, BA3> {
     HybridReport::Impression(HybridImpressionReport::<BA8> {
         match_key: AdditiveShare::new(BA64::truncate_from(u128::from(mk)), BA64::truncate_from(u128::from(!mk))),
         breakdown_key: AdditiveShare::new(BA8::truncate_from(u128::from(bk)), BA8::truncate_from(u128::from(bk ^ 0x5a))),
@@ -29,7 +29,7 @@ fn impression(mk: u64, bk: u8, key_id: u8) -> HybridReport<BA8, BA3> {
     })
 }
 
-fn conversion(mk: u64, v: u8, key_id: u8, site: &str, ts: u64, eps: f64, sens: f64) -> HybridReport<BA8, BA3> {
+pub fn conversion(mk: u64, v: u8, key_id: u8, site: &str, ts: u64, eps: f64, sens: f64) -> HybridReport<BA8, BA3> {
     HybridReport::Conversion(HybridConversionReport::<BA3> {
         match_key: AdditiveShare::new(BA64::truncate_from(u128::from(mk)), BA64::truncate_from(u128::from(mk.rotate_left(7)))),
         value: AdditiveShare::new(BA3::truncate_from(u128::from(v & 7)), BA3::truncate_from(u128::from((v >> 3) & 7))),
@@ -38,7 +38,7 @@ fn conversion(mk: u64, v: u8, key_id: u8, site: &str, ts: u64, eps: f64, sens: f
 }
 
 /// parse + decrypt, with every panic turned into a distinguishable outcome
-fn open(bytes: &[u8], reg: &KeyRegistry<KeyPair>) -> Result<Result<HybridReport<BA8, BA3>, String>, String> {
+pub fn open(bytes: &[u8], reg: &KeyRegistry<KeyPair>) -> Result<Result<HybridReport<BA8, BA3>, String>, String> {
     let b = Bytes::copy_from_slice(bytes);
     common::catch(|| match Enc::try_from(b) {
         Ok(e) => e.decrypt(reg).map_err(|e| format!("decrypt: {e}")),
@@ -390,6 +390,88 @@ fn run() {
     let mut r = Report::new("C10");
     run_reports(&mut r);
     record_sequences(&mut r);
+    r.flag("exhaustive", true);
+    r.finish();
+}
+
+
+/// C09 (canonical encodings of reports): a decoder may accept a byte string only if re-encoding what
+/// it decoded reproduces it. For the info sections and the encrypted records of both report kinds:
+/// the exact encoding is accepted and re-encodes to itself; the encoding followed by 1..3 extra bytes
+/// (0x00 / 0xff / 0x2e) is rejected - it could only be accepted as a second encoding of the same report.
+#[test]
+fn run_canonical_reports() {
+    let mut r = Report::new("C09");
+    let mut rng = StdRng::seed_from_u64(common::seed() + 99);
+    let reg = KeyRegistry::<KeyPair>::random(1, &mut rng);
+    let mut bad: Vec<(String, String)> = Vec::new();
+    let mut n = 0u64;
+    // info sections
+    for site in ["", "a", "example.com", &"x".repeat(255)] {
+        let info = HybridConversionInfo::new(0, site, 1234, 1.0, 2.0).unwrap();
+        let enc: Vec<u8> = info.to_bytes().to_vec();
+        n += 1;
+        match common::catch(|| HybridConversionInfo::from_bytes(&enc)) {
+            Ok(Ok(back)) if back.to_bytes().to_vec() == enc => {}
+            other => bad.push(("conversion-info-roundtrip".into(), format!("site of {} bytes: {:?}", site.len(), other.map(|x| x.map(|i| i.to_bytes().len()).map_err(|e| e.to_string()))))),
+        }
+        for extra in 1..=3usize {
+            for fill in [0x00u8, 0xff, 0x2e] {
+                n += 1;
+                let mut b = enc.clone();
+                b.extend(std::iter::repeat(fill).take(extra));
+                match common::catch(|| HybridConversionInfo::from_bytes(&b)) {
+                    Ok(Ok(back)) if back.to_bytes().to_vec() != b => bad.push(("conversion-info-trailing-bytes".into(), format!("the info section of a conversion report (site of {} bytes) followed by {extra} byte(s) {fill:#04x} is accepted, although it re-encodes to {} bytes instead of {}", site.len(), back.to_bytes().len(), b.len()))),
+                    Err(p) => bad.push(("panic".into(), p)),
+                    _ => {}
+                }
+            }
+        }
+    }
+    {
+        let info = HybridImpressionInfo::new(0);
+        let enc: Vec<u8> = info.to_bytes().to_vec();
+        for extra in 0..=3usize {
+            n += 1;
+            let mut b = enc.clone();
+            b.extend(std::iter::repeat(0u8).take(extra));
+            match common::catch(|| HybridImpressionInfo::from_bytes(&b)) {
+                Ok(Ok(back)) if back.to_bytes().to_vec() != b => bad.push(("impression-info-trailing-bytes".into(), format!("the info section of an impression report followed by {extra} zero byte(s) is accepted"))),
+                Err(p) => bad.push(("panic".into(), p)),
+                _ => {}
+            }
+        }
+    }
+    // encrypted records
+    for rep in [impression(5, 9, 0), conversion(6, 3, 0, "example.com", 77, 1.0, 1.0), conversion(7, 1, 0, "", 0, 0.5, 0.25)] {
+        let bytes = rep.encrypt(0, &reg, &mut rng).unwrap().to_vec();
+        n += 1;
+        if !matches!(open(&bytes, &reg), Ok(Ok(ref back)) if *back == rep) {
+            bad.push(("report-roundtrip".into(), "an encrypted report does not decrypt to itself".into()));
+        }
+        for extra in 1..=3usize {
+            for fill in [0x00u8, 0xff, 0x2e] {
+                n += 1;
+                let mut b = bytes.clone();
+                b.extend(std::iter::repeat(fill).take(extra));
+                match open(&b, &reg) {
+                    Ok(Ok(back)) => bad.push(("report-trailing-bytes".into(), format!("an encrypted {} report followed by {extra} byte(s) {fill:#04x} decrypts (to {}), so the report has more than one accepted encoding", if matches!(rep, HybridReport::Impression(_)) { "impression" } else { "conversion" }, if back == rep { "the same report" } else { "a different report" }))),
+                    Err(p) => bad.push(("panic".into(), p)),
+                    Ok(Err(_)) => {}
+                }
+            }
+        }
+    }
+    r.add("evaluations", n);
+    r.add("distinct_nontrivial", n);
+    r.add("report_canonical_cases", n);
+    let mut seen = std::collections::BTreeSet::new();
+    for (k, w) in &bad {
+        if seen.insert(k.clone()) {
+            r.violation(&format!("encoding:report:{k}"), &format!("{w} ({} failing cases of this kind)", bad.iter().filter(|x| x.0 == *k).count()), json!({"part":"reports-canonical"}));
+        }
+    }
+    r.sample(json!({"oracle":"decode(b) accepted => encode(decode(b)) == b","inputs":"info sections and encrypted records of both kinds, exact and with 1..3 trailing bytes"}));
     r.flag("exhaustive", true);
     r.finish();
 }
